@@ -116,6 +116,9 @@ class Machine(object):
                 except R2Err as e:
                     rec.append(("caught", e.t))
                     yield from self.block(T, st[3], rec, made)
+            elif op == "ovl":
+                yield from self.block(T, st[2], rec, made)
+                yield from self.block(T, st[3], rec, made)
             elif op == "with":
                 T.ctx.append(st[2])
                 try:
@@ -373,7 +376,7 @@ class Machine(object):
                 it.err = ("exc", "AssertionError")
 
 
-SKIP = frozenset(["with:Xp", "with:Xr", "with:Xq", "dd", "ddirty", "dbi"])
+SKIP = frozenset(["bt", "with:Xp", "with:Xr", "with:Xq", "dd", "ddirty", "dbi"])
 
 
 def lockstep(prog, r, conv_parent=False):
